@@ -36,7 +36,8 @@ if res["confirmed"] and checks:
             t = time.time()
             rc, out = sh("./check quick %s" % c, cwd="/verif", timeout=3000)
             lines = [l for l in out.split("\n") if l.startswith("VIOLATION") or l.startswith("KNOWN-FINDING")]
-            res["checks"][c] = dict(rc=rc, wall=round(time.time() - t), lines=lines[:6])
+            lines.sort(key=lambda l: not l.startswith("VIOLATION"))
+            res["checks"][c] = dict(rc=rc, wall=round(time.time() - t), lines=lines[:8])
             for l in lines:
                 if l.startswith("VIOLATION") and "replay=" in l:
                     rp = l.split("replay=")[1].split()[0]
